@@ -49,7 +49,7 @@ FDigit == {"0","1","2","3","4","5","6","7","8","9"}
 ValidName(n) == /\ Len(n) > 0 /\ SubSeq(n, 1, 1) \notin FDigit
                 /\ \A i \in 1..Len(n) : SubSeq(n, i, i) \in FLower \cup FDigit \cup {"-"}
 
-\* registration entries:  [name, args (sorts n/s/b/object), ret, beh (const/arg/panic), def (typed/none)]
+\* registration entries:  [name, args (sorts n/s/b/object), ret, beh (const/arg/panic/partial), def (typed/none)]
 Info(n, a, r, b, d) == [name |-> n, args |-> a, ret |-> r, beh |-> b, def |-> d]
 RECURSIVE RegAll(_, _, _)
 RegAll(t, batch, g) == IF batch = << >> THEN t
@@ -92,6 +92,7 @@ HasCustom(e) == CASE e.k = "bcall" -> (e.sym.custom /\ ~e.sym.dummy) \/ \E i \in
 \* conversion of an argument to the declared parameter sort (program.go convertArgType)
 Conv(sort, v) == CASE sort = "n" -> WithJ(VN(ToNum(v)), v.j) [] sort = "s" -> WithJ(VS(ToStr(v)), v.j)
                    [] sort = "b" -> WithJ(VB(ToBool(v)), v.j) [] OTHER -> v
+BadArg(v) == CASE v.t = "s" -> v.s = "" [] v.t = "n" -> IsNaN(v.n) [] v.t = "b" -> ~v.b [] OTHER -> TRUE   \* the operand class a "partial" function fails on
 TypedConst(r, n, s, b) == CASE r = "n" -> VN(Num(n)) [] r = "s" -> VS(s) [] OTHER -> VB(b)
 Failed == [err |-> TRUE, v |-> VB(FALSE), calls |-> << >>]
 RECURSIVE EvalB(_), EvalArgs(_)
@@ -109,6 +110,10 @@ EvalB(e) ==
                                            [] Len(cv) = 2 -> Fn2(s.name, cv[1], cv[2]) [] OTHER -> Fn3(s.name, cv[1], cv[2], cv[3])]
              [] s.beh = "const" -> [err |-> FALSE, calls |-> a.calls, v |-> TypedConst(s.ret, s.gen, "g" \o ToString(s.gen), s.gen % 2 = 1)]
              [] s.beh = "arg" -> [err |-> FALSE, calls |-> a.calls, v |-> cv[1]]
+             [] s.beh = "partial" ->        \* fails for one class of its (converted) first argument only; a failure is confined to its call
+                    IF Len(cv) > 0 /\ ~BadArg(cv[1]) THEN [err |-> FALSE, calls |-> a.calls, v |-> cv[1]]
+                    ELSE IF s.def = "typed" THEN [err |-> FALSE, calls |-> a.calls, v |-> TypedConst(s.ret, 99, "def", TRUE)]
+                    ELSE [Failed EXCEPT !.calls = a.calls]
              [] s.beh = "panic" -> IF s.def = "typed" THEN [err |-> FALSE, calls |-> a.calls, v |-> TypedConst(s.ret, 99, "def", TRUE)]
                                    ELSE [Failed EXCEPT !.calls = a.calls]                       \* NilDefault
              [] OTHER -> [Failed EXCEPT !.calls = a.calls]                                      \* DummyArity0: not runnable
@@ -138,7 +143,10 @@ InfoPool == {Info("my-fn", <<"n">>, "n", "arg", "typed"), Info("my-fn", <<"s">>,
              Info("x2", << >>, "n", "panic", "none"), Info("x2", <<"b">>, "s", "panic", "typed"), Info("x2", <<"b">>, "b", "arg", "typed"),
              Info("-x", << >>, "n", "const", "typed"), Info("Bad_Name", << >>, "n", "const", "typed"), Info("9x", << >>, "s", "const", "typed"),
              Info("", << >>, "b", "const", "typed"), Info("contains", <<"s", "s">>, "b", "const", "typed"), Info("true", << >>, "s", "const", "typed"),
-             Info("string", <<"n">>, "n", "arg", "typed")}
+             Info("string", <<"n">>, "n", "arg", "typed"),
+             \* functions that fail for one operand class only (empty string / NaN / false) and echo every other operand
+             Info("my-fn", <<"s">>, "s", "partial", "typed"), Info("my-fn", <<"n">>, "n", "partial", "none"), Info("x2", <<"b">>, "b", "partial", "typed"),
+             Info("k2", <<"s", "b">>, "s", "partial", "typed")}
 ArgLists == {<< >>, <<NumE(1)>>, <<LitE("12")>>, <<NumE(0), LitE("x")>>, <<LitE("ab"), LitE("b")>>, <<FCall("true", << >>)>>,
              <<RelE("vabs")>>, <<RelE("vnum")>>, <<RelE("a"), NumE(2)>>}
 Calls1(u_) == {FCall(f, as) : f \in FnPool \ {"-x"}, as \in ArgLists}
